@@ -11,8 +11,8 @@ import (
 	"fmt"
 	"math"
 	"os"
+	"runtime"
 	"strconv"
-
 	"time"
 
 	prand "pgregory.net/rand"
@@ -21,7 +21,20 @@ import (
 // NativeQuiesce is how long the native Quiesce waits for goroutines and real timers to settle.
 var NativeQuiesce = 100 * time.Millisecond
 
-func quiesceNative() { time.Sleep(NativeQuiesce) }
+// native approximation of quiescence: wait at least NativeQuiesce, then until the number of goroutines
+// has been stable for a while (bounded); timing based, so checks that rely on it allow re-runs
+func quiesceNative() {
+	time.Sleep(NativeQuiesce)
+	last, stable := runtime.NumGoroutine(), 0
+	for i := 0; i < 100 && stable < 5; i++ {
+		time.Sleep(20 * time.Millisecond)
+		if n := runtime.NumGoroutine(); n == last {
+			stable++
+		} else {
+			last, stable = n, 0
+		}
+	}
+}
 
 // Random draws of pgregory.net/rand are inputs: under the engine the drawing methods are solver
 // variables (Float64 in [0,1), Uint64n(n) < n, ...); natively the overlaid rand.go consults this
